@@ -16,6 +16,8 @@ from vf.pysym.values import ModelRaise
 ASSUMPTIONS = c06.ASSUMPTIONS + [
     "the selection T is symbolic: one boolean per member name, plus an absent name, each optionally with a trailing '/', "
     "given as list or set (concrete shard parameter), recursive symbolic per shard",
+    "to_path: pathlib is bound to the in-memory filesystem model (vf/harness/fakefs.py, validated against the OS each run by "
+    "C03); member names form a tree (a file may live in an earlier directory entry)",
 ]
 
 
